@@ -311,10 +311,13 @@ func (h *handler) processUnaryRpc(
 	rpc *goatorepo.Rpc,
 ) *goatorepo.Rpc {
 	ctx, cancel, err := contextFromHeaders(clientCtx, rpc.GetHeader())
-	if err != nil {
-		log.Panic().Err(err).Msg("Server: failed to get context from headers")
-	}
 	defer cancel()
+	if err != nil {
+		// The peer sent metadata we cannot decode. That is its problem, not a
+		// reason to stop serving: answer with an error, never run the handler.
+		log.Warn().Err(err).Msg("Server: invalid request metadata")
+	}
+	mdErr := err
 
 	var appErr error
 	fullMethod := fmt.Sprintf("/%s/%s", info.name, md.MethodName)
@@ -352,7 +355,11 @@ func (h *handler) processUnaryRpc(
 	}
 
 	var resp any
-	resp, appErr = md.Handler(info.serviceImpl, ctx, dec, h.srv.unaryInterceptor)
+	if mdErr != nil {
+		appErr = status.Error(codes.InvalidArgument, "invalid request metadata: "+mdErr.Error())
+	} else {
+		resp, appErr = md.Handler(info.serviceImpl, ctx, dec, h.srv.unaryInterceptor)
+	}
 
 	respH := internal.ToKeyValue(sts.GetHeaders())
 	respHeader := &goatorepo.RequestHeader{
